@@ -422,3 +422,259 @@ func c14Clock(c *Ctx, r *Report, rule string) {
 		}
 	}
 }
+
+// c14Siblings: a plain filter and its regexp sibling (fields X and XRegexp of one matcher) are two spellings of one
+// condition; they must look at the same thing. The value compared with the configured X and the value handed to
+// the compiled XRegexp are the same expression (same call on the same receiver / same field / same variable).
+func c14Siblings(c *Ctx, r *Report, rule string) {
+	r.rule(rule, "sibling filters agree on their subject: where a matcher has a plain filter X and a regexp filter XRegexp, the value compared with the configured X and the value given to XRegexp.MatchString are the same expression", 3)
+	var key func(v ssa.Value, d int) string
+	key = func(v ssa.Value, d int) string {
+		if d > 6 {
+			return "?"
+		}
+		switch x := v.(type) {
+		case *ssa.Call:
+			var as []string
+			if x.Call.IsInvoke() {
+				as = append(as, key(x.Call.Value, d+1))
+			}
+			for _, a := range x.Call.Args {
+				as = append(as, key(a, d+1))
+			}
+			return calleeID(x) + "(" + strings.Join(as, ",") + ")"
+		case *ssa.UnOp:
+			if x.Op == token.MUL {
+				if base, sn, f, ok := fieldAddr(x.X); ok {
+					return sn + "." + f + " of " + key(base, d+1)
+				}
+				return "*" + key(x.X, d+1)
+			}
+		case *ssa.Alloc:
+			return "new " + typeStr(deref(x.Type())) + "@" + x.Name()
+		case *ssa.Parameter:
+			return "param " + x.Name()
+		case *ssa.Const:
+			return constDesc(x)
+		case *ssa.Convert:
+			return key(x.X, d+1)
+		case *ssa.ChangeType:
+			return key(x.X, d+1)
+		case *ssa.Slice:
+			lo, hi := "", ""
+			if x.Low != nil {
+				lo = key(x.Low, d+1)
+			}
+			if x.High != nil {
+				hi = key(x.High, d+1)
+			}
+			return key(x.X, d+1) + "[" + lo + ":" + hi + "]"
+		case *ssa.BinOp:
+			return "(" + key(x.X, d+1) + x.Op.String() + key(x.Y, d+1) + ")"
+		case *ssa.Phi, *ssa.Extract:
+			return v.Name() // one variable
+		}
+		return v.Name()
+	}
+	lower := func(s string) string { return strings.ToLower(s) }
+	mreach := c.matcherReach()
+	for _, fn := range sortedFuncs(mreach) {
+		if len(fn.Blocks) == 0 {
+			continue
+		}
+		// regexp uses: stem -> subject
+		type use struct {
+			subj ssa.Value
+			at   ssa.Instruction
+		}
+		re := map[string][]use{}
+		for _, ci := range callsIn(fn) {
+			if calleeID(ci) != "(*regexp.Regexp).MatchString" && calleeID(ci) != "(*regexp.Regexp).Match" {
+				continue
+			}
+			if _, _, f, ok := fieldAddrOfLoad(ci.Common().Args[0]); ok && strings.HasSuffix(lower(f), "regexp") {
+				stem := strings.TrimSuffix(lower(f), "regexp")
+				re[stem] = append(re[stem], use{ci.Common().Args[1], ci})
+			}
+		}
+		if len(re) == 0 {
+			continue
+		}
+		// equality filters: a comparison one side of which derives from the configured field <stem>
+		for _, b := range fn.Blocks {
+			for _, in := range b.Instrs {
+				bo, ok := in.(*ssa.BinOp)
+				if !ok || (bo.Op != token.EQL && bo.Op != token.NEQ) {
+					continue
+				}
+				if bt, isB := bo.X.Type().Underlying().(*types.Basic); !isB || bt.Info()&types.IsString == 0 {
+					continue
+				}
+				for _, pr := range [][2]ssa.Value{{bo.X, bo.Y}, {bo.Y, bo.X}} {
+					cfg, subj := pr[0], pr[1]
+					if _, isC := subj.(*ssa.Const); isC {
+						continue
+					}
+					stem := ""
+					for _, o := range origins(cfg, sliceOpts{throughCalls: true}) {
+						if o.Kind == "field" {
+							f := lower(o.Desc[strings.LastIndex(o.Desc, ".")+1:])
+							if _, has := re[f]; has {
+								stem = f
+							}
+						}
+					}
+					if stem == "" {
+						continue
+					}
+					// the subject must not itself be the configured side
+					cfgSide := false
+					for _, o := range origins(subj, sliceOpts{throughCalls: true}) {
+						if o.Kind == "field" && lower(o.Desc[strings.LastIndex(o.Desc, ".")+1:]) == stem {
+							cfgSide = true
+						}
+					}
+					if cfgSide {
+						continue
+					}
+					for _, u := range re[stem] {
+						same := key(subj, 0) == key(u.subj, 0)
+						r.check(same, rule, fname(fn), "filter "+stem+" / "+stem+"_regexp", c.ipos(u.at), "both filters test "+key(subj, 0), "the plain filter tests "+key(subj, 0)+" but the regexp filter tests "+key(u.subj, 0)+": the two spellings of the filter disagree (e.g. one sees the name with a mode suffix, the other without)")
+					}
+				}
+			}
+		}
+	}
+}
+
+// fieldAddrOfLoad: v is a load of a struct field.
+func fieldAddrOfLoad(v ssa.Value) (ssa.Value, string, string, bool) {
+	if ld, ok := v.(*ssa.UnOp); ok && ld.Op == token.MUL {
+		return fieldAddr(ld.X)
+	}
+	return nil, "", "", false
+}
+
+// c14Transport: OpenVPN over TCP prefixes each packet with its length; that length counts the opcode byte which the
+// matcher has already consumed when it reads the rest, while a datagram is measured without it. Wherever the matcher
+// treats the two transports in sibling branches, the TCP bounds are the datagram bounds plus that one byte.
+func c14Transport(c *Ctx, r *Report, rule string) {
+	r.rule(rule, "OpenVPN: in every branch on the transport (local address is a *net.TCPAddr or not) the length bounds of the TCP arm equal those of the datagram arm plus the one opcode byte (upper bounds compared with >, lower bounds with <); where the arms have no constant bounds of their own (e.g. they were moved into a helper that gets them as parameters) there is nothing to compare", 1)
+	fnName := "modules/l4openvpn.(*MatchOpenVPN).Match"
+	fn := c.Fn(fnName)
+	if fn == nil {
+		r.bad(rule, fnName, "exists", "-", "function not found")
+		return
+	}
+	var isTCP ssa.Value
+	for _, b := range fn.Blocks {
+		for _, in := range b.Instrs {
+			if ta, ok := in.(*ssa.TypeAssert); ok && ta.CommaOk && strings.HasSuffix(typeStr(ta.AssertedType), "net.TCPAddr") {
+				if ex := extractOfTuple(ta, 1); ex != nil {
+					isTCP = ex
+				}
+			}
+		}
+	}
+	if isTCP == nil {
+		r.bad(rule, fnName, "transport test", c.pos(fn.Pos()), "the test for a TCP local address was not found")
+		return
+	}
+	n := 0
+	for _, b := range fn.Blocks {
+		ifi, ok := b.Instrs[len(b.Instrs)-1].(*ssa.If)
+		if !ok || ifi.Cond != isTCP {
+			continue
+		}
+		tArm, uArm := b.Succs[0], b.Succs[1]
+		collect := func(arm, other *ssa.BasicBlock) (gt, lt []int64) {
+			for _, blk := range fn.Blocks {
+				if !(blk == arm || arm.Dominates(blk)) || blk == other || other.Dominates(blk) {
+					continue
+				}
+				// the arm proper: not past the join
+				if arm != blk && !arm.Dominates(blk) {
+					continue
+				}
+				for _, in := range blk.Instrs {
+					bo, ok := in.(*ssa.BinOp)
+					if !ok {
+						continue
+					}
+					k, isC := constInt(bo.Y)
+					op := bo.Op
+					if !isC {
+						if k2, isC2 := constInt(bo.X); isC2 {
+							k, isC = k2, true
+							switch op {
+							case token.GTR:
+								op = token.LSS
+							case token.LSS:
+								op = token.GTR
+							}
+						}
+					}
+					if !isC {
+						continue
+					}
+					switch op {
+					case token.GTR:
+						gt = append(gt, k)
+					case token.LSS:
+						lt = append(lt, k)
+					}
+				}
+			}
+			return
+		}
+		// only arms that are not each other's continuation (a plain if without else has its join as "else")
+		if len(uArm.Preds) > 1 {
+			continue
+		}
+		tg, tl := collect(tArm, uArm)
+		ug, ul := collect(uArm, tArm)
+		maxOf := func(xs []int64) int64 {
+			m := xs[0]
+			for _, x := range xs {
+				if x > m {
+					m = x
+				}
+			}
+			return m
+		}
+		minOf := func(xs []int64) int64 {
+			m := xs[0]
+			for _, x := range xs {
+				if x < m {
+					m = x
+				}
+			}
+			return m
+		}
+		if len(tg) > 0 && len(ug) > 0 {
+			n++
+			a, bb := maxOf(tg), maxOf(ug)
+			r.check(a == bb+1, rule, fnName, fmt.Sprintf("upper bound#%d", n), c.ipos(ifi), fmt.Sprintf("TCP %d = datagram %d + 1", a, bb), fmt.Sprintf("over TCP the length may be at most %d, as a datagram at most %d: the TCP bound must be the datagram bound + 1 (the length prefix counts the opcode byte) - the largest well-formed message is accepted on one transport only", a, bb))
+		}
+		if len(tl) > 0 && len(ul) > 0 {
+			n++
+			a, bb := minOf(tl), minOf(ul)
+			r.check(a == bb+1, rule, fnName, fmt.Sprintf("lower bound#%d", n), c.ipos(ifi), fmt.Sprintf("TCP %d = datagram %d + 1", a, bb), fmt.Sprintf("over TCP the length must be at least %d, as a datagram at least %d: the TCP bound must be the datagram bound + 1", a, bb))
+		}
+	}
+	r.ok(rule, fnName, "transport branches examined", c.pos(fn.Pos()), fmt.Sprintf("%d pair(s) of constant bounds compared", n))
+}
+
+func init() { _ = 0 }
+
+func extractOfTuple(v ssa.Value, i int) *ssa.Extract {
+	if v.Referrers() == nil {
+		return nil
+	}
+	for _, r := range *v.Referrers() {
+		if e, ok := r.(*ssa.Extract); ok && e.Index == i {
+			return e
+		}
+	}
+	return nil
+}
